@@ -3,6 +3,10 @@
 // Contracts for package netflow5, checked by /verif/govc (comment-only file; it declares nothing).
 package netflow5
 
+// decoding does a bounded amount of work per datagram (C02): no function of this package may wait on a channel;
+// a channel operation has to be a case of a select with a default clause
+//@ pkgopt nonblocking *
+
 //@ pred hdrAt(h PacketHeader, b []byte, p mathint) = h.Version == be16(b, p) && h.Count == be16(b, p+2)
 //@     && h.SysUpTimeMSecs == be32(b, p+4) && h.UNIXSecs == be32(b, p+8) && h.UNIXNSecs == be32(b, p+12)
 //@     && h.SeqNum == be32(b, p+16) && h.EngType == be8(b, p+20) && h.EngID == be8(b, p+21) && h.SmpInt == be16(b, p+22)
